@@ -2,3 +2,4 @@ import Proofs.LFU
 import Proofs.Pickle
 import Proofs.PickleEnc
 import Proofs.Path
+import Proofs.Distance
